@@ -150,6 +150,13 @@ class SFixed(Template[_FixedTemplateArg], AssignableType):
     def _adjust_val(cls, val):
         return int(val / 2**cls._exp)
 
+    @classmethod
+    @pyeval
+    def _is_representable(cls, val):
+        if not (cls.min() <= val <= cls.max()):
+            return False
+        return cls._adjust_val(val) * 2**cls._exp == val
+
     @pyeval
     def __repr__(self):
         val = TypeQualifier.decay(self._val).to_int() * 2**self._exp
@@ -228,7 +235,11 @@ class SFixed(Template[_FixedTemplateArg], AssignableType):
 
     def __eq__(self, other: int | float | SFixed):
         if isinstance(other, (int, float)):
-            return type(self)(other) == self
+            if self._is_representable(other):
+                return type(self)(other) == self
+            else:
+                # a number that cannot be represented is not equal to any value of this type
+                return False
         else:
             assert isinstance(other, SFixed)
             assert type(other) is type(self)
@@ -522,6 +533,13 @@ class UFixed(Template[_FixedTemplateArg], AssignableType):
     def _adjust_val(cls, val):
         return int(val / 2**cls._exp)
 
+    @classmethod
+    @pyeval
+    def _is_representable(cls, val):
+        if not (cls.min() <= val <= cls.max()):
+            return False
+        return cls._adjust_val(val) * 2**cls._exp == val
+
     @pyeval
     def __repr__(self):
         val = TypeQualifier.decay(self._val).to_int() * 2**self._exp
@@ -593,7 +611,11 @@ class UFixed(Template[_FixedTemplateArg], AssignableType):
 
     def __eq__(self, other: int | float | UFixed):
         if isinstance(other, (int, float)):
-            return type(self)(other) == self
+            if self._is_representable(other):
+                return type(self)(other) == self
+            else:
+                # a number that cannot be represented is not equal to any value of this type
+                return False
         else:
             assert isinstance(other, UFixed)
             assert type(other) is type(self)
